@@ -143,7 +143,12 @@ func c07Case(c *Ctx) {
 		for k := 0; k < per; k++ {
 			rec := c07Recipe(c, k)
 			if k%3 == 0 { // field-regrouped variants first: a memo keyed on a lossy rendering would answer for the wrong recipe
-				for _, sib := range siblingsOf(c.R, rec) {
+				sibs := siblingsOf(c.R, rec)
+				if k%6 == 0 { // policies that are prefixes of one RequireSets array with spare capacity
+					sibs = shareArrays(&rec, sibs)
+					recs = append(recs, rec) // the shorter prefix is evaluated first as well
+				}
+				for _, sib := range sibs {
 					if sib.Length >= 1 {
 						recs = append(recs, sib)
 					}
@@ -152,8 +157,22 @@ func c07Case(c *Ctx) {
 			recs = append(recs, rec)
 		}
 	}
+	snaps := make([]string, len(recs))
+	sems := make([]oracle.CharSem, len(recs))
 	for k, rec := range recs {
-		sem := oracle.CharSemOf(rec)
+		snaps[k] = snapChar(rec)
+		sems[k] = oracle.CharSemOf(rec) // the meaning of the fields as given, before any library call
+	}
+	defer func() {
+		for k, rec := range recs {
+			if snapChar(rec) != snaps[k] {
+				c.Violate("call-modified-recipe-fields", fmt.Sprintf("Entropy()/VerifCount calls changed the public fields / caller-owned RequireSets array of a recipe: before %s after %s", snaps[k], snapChar(rec)), nil)
+				return
+			}
+		}
+	}()
+	for k, rec := range recs {
+		sem := sems[k]
 		if rec.Length < 1 || sem.Emptied > 0 {
 			c.Count("outside_domain", 1)
 			continue
